@@ -223,6 +223,9 @@ class Member:
         if is_opts or cmd:
             e += '.to_options()'
             if 'version' in top: e += '.version(env!("CARGO_PKG_VERSION"))'
+            for t in top:
+                mv = re.match(r'^version\((.*)\)$', t)
+                if mv: e += '.version(%s)' % mv.group(1)
             descr, header, footer = split_doc(doc)
             for t in top:
                 m = re.match(r'^(descr|header|footer)\((.*)\)$', t)
@@ -370,6 +373,9 @@ def base_family():
     M.append(Member('b_group_help_explicit', 'struct', 'Rect', top=['group_help("Takes a rectangle")'], doc='Dimensions of a rectangle, in meters', fields=[F('width', 'u32', doc='Width'), F('height', 'u32')]))
     M.append(Member('b_group_help_enum', 'enum', 'Syntax', top=['group_help("Output syntax")'], doc='Which syntax to use', variants=[
         dict(name='Intel', shape='unit', doc='Intel style'), dict(name='Att', shape='unit')]))
+    # a version asked for on a subcommand is the subcommand's: command mode passes it on like options mode does
+    M.append(Member('b_cmd_version', 'struct', 'Fmt', top=['command', 'version'], doc='format it', fields=[F('check', 'bool')]))
+    M.append(Member('b_cmd_version_lit', 'struct', 'Lint', top=['command("lint")', 'version("1.2.3-lint")', 'short(\'l\')'], fields=[F('fix', 'bool')]))
     # constant consumers: pure(v) is the field's value as it is, pure_with(f) gets the implicit optional()/many() of its shape
     M.append(Member('b_pure_consumers', 'struct', 'Consts', top=['options'], fields=[
         F('seed', 'Option<u32>', cons='pure_with(|| Ok::<_, String>(Default::default()))'), F('extra', 'Vec<u32>', cons='pure_with(|| Ok::<_, String>(Default::default()))'),
